@@ -253,6 +253,7 @@ type connResult struct {
 // carries its own instructions (and its own tag).
 //
 //	rb=N|all|none   how much of the body the handler reads (streaming) / observes
+//	rqh=reset|cl0|del   the handler resets / rewrites the framing fields of its request header after reading
 //	again=1         after reading: one more Read on the stream, then PostArgs() and Request.Body()
 //	bc=1            take the body through Request.Body()     rsb=1 Request.ResetBody()    sb=1 Request.SetBodyString
 //	sc=CODE         status code          body=TEXT   response body          close=1   SetConnectionClose
@@ -431,6 +432,15 @@ func newConnServer(cfg connCfg) *connServer {
 			}
 			_ = ctx.PostArgs().Len()
 			_ = len(ctx.Request.Body())
+		}
+		switch string(q.Peek("rqh")) { // the handler rewrites its REQUEST header after (partly) reading the body
+		case "reset":
+			ctx.Request.Header.Reset()
+		case "cl0":
+			ctx.Request.Header.SetContentLength(0)
+		case "del":
+			ctx.Request.Header.Del("Content-Length")
+			ctx.Request.Header.Del("Transfer-Encoding")
 		}
 		if q.Has("rsb") { // the handler drops the request body (after reading what rb says)
 			ctx.Request.ResetBody()
